@@ -34,7 +34,7 @@ PROBES = {'C17': 10}
 MIN_EVAL = {'quick': 5000, 'thorough': 200000}
 REQUIRED_COUNTERS = ['a:corrupted', 'b:layout-error', 'b:ok', 'op:push-var', 'op:swap', 'op:shuffle',
                      'op:pops', 'budgeted_calls']
-MODELS_A = ['default', 'amr', 'default', 'mini', 'rand1', 'rand2', 'inv']
+MODELS_A = ['default', 'amr', 'default', 'mini', 'rand1', 'rand2', 'inv', 'both', 'prefix']
 
 
 def cases(ctx):
